@@ -172,7 +172,7 @@ impl Property for C02 {
         vec![("real".into(), real_project_files().len() as u64), ("generated".into(), tier.pick(450, 3000)), ("real-edited".into(), tier.pick(1000, 12_000)), ("generated-edited".into(), tier.pick(1000, 12_000))]
     }
     fn required(&self, _tier: Tier) -> Vec<(String, u64)> {
-        vec![("class:closed".into(), 300), ("class:rejected".into(), 100), ("edits:remove".into(), 150), ("edits:rename".into(), 100), ("edits:insert".into(), 10), ("edits:retarget".into(), 60), ("generated:closed".into(), 60), ("partitions_with_named_neighbour_checked".into(), 500), ("generated-odd-names:closed".into(), 5), ("generated-odd-names:rejected".into(), 5)]
+        vec![("class:closed".into(), 300), ("class:rejected".into(), 100), ("edits:remove".into(), 150), ("edits:rename".into(), 100), ("edits:insert".into(), 10), ("edits:retarget".into(), 60), ("generated:closed".into(), 60), ("generated:names-differing-only-in-case".into(), 20), ("partitions_with_named_neighbour_checked".into(), 500), ("generated-odd-names:closed".into(), 5), ("generated-odd-names:rejected".into(), 5)]
     }
     fn time_cap_s(&self, tier: Tier) -> u64 {
         tier.pick(170, 2400)
@@ -192,7 +192,11 @@ impl Property for C02 {
                 obs.sample(json!({"project": name, "outcome": c}));
             }
             "generated" => {
-                let b = gen_building(&mut rng, &BuildCfg::full());
+                let mut b = gen_building(&mut rng, &BuildCfg::full());
+                // every fifth project: two layer sets whose names differ only in letter case, used in turn
+                if case.index % 5 == 4 && crate::gen::bdl::case_twin_layers(&mut b).is_some() {
+                    obs.count("generated:names-differing-only-in-case");
+                }
                 let lay = Layout::random(&mut rng);
                 let mut blocks = b.blocks();
                 // a third of the projects spell some definitions (and their references, identically) with doubled
